@@ -34,6 +34,8 @@ From CF Require Import C12.Alias.
 From CF Require Import C12.Proofs_alias.
 From CF Require Import C12.Stream.
 From CF Require Import C12.Proofs_stream.
+From CF Require Import C12.ErrorCb.
+From CF Require Import C12.Proofs_errorcb.
 Open Scope Z_scope.
 
 (* Success means the image is in flash, byte for byte, at start * page_size — provided positive
@@ -457,3 +459,38 @@ Theorem C12_uncounted_strays_refuted : forall addr p, good_reply addr (Some p) =
   forall fuel, wfv_loop fuel 6 addr None O (fun _ => Some p) = None.
 Proof. exact variant_never_returns. Qed.
 Print Assumptions C12_uncounted_strays_refuted.
+
+(* ------------------------------------------------------------------ Wave 14: error_cb and the per-image loop of flash() *)
+
+(* For every UI configuration (progress_cb, error_cb installed or not), every plan and script, inside or outside the
+   firmware phase: the session is exactly the session without callbacks — same abort or completion, script position,
+   frames and calls — and error_cb is never invoked (the code does not read it). *)
+Theorem C12_session_same_with_error_cb : forall ui p fw scr,
+  run_plan_e false ui fw p scr = (let '(o, s, tr, cs, rb) := run_plan p scr in (o, s, tr, cs, rb, O)).
+Proof. exact run_plan_e_same. Qed.
+Print Assumptions C12_session_same_with_error_cb.
+
+(* The per-image loop is a fold that stops at the first failure: if the images of p1 are flashed successfully and
+   image c fails (refused, flash-write failed or unanswered, exception), the session ends with that failure and has
+   sent the frames of p1 and of c only — whatever images p2 follow, none of their commands is sent. *)
+Theorem C12_flash_stops_at_first_failed_image : forall p1 scr s1 t1 cs1 rb1 c p2 o q2 s2 t2,
+  run_plan p1 scr = (SDone, s1, t1, cs1, rb1) ->
+  run_call c s1 = (o, q2, s2, t2) -> o <> Done ->
+  exists rb, run_plan (p1 ++ PCall c :: p2) scr = (SFlash o, s2, t1 ++ t2, cs1 ++ [c], rb).
+Proof. exact run_plan_stops_at_first_failure. Qed.
+Print Assumptions C12_flash_stops_at_first_failed_image.
+
+(* REFUTATION of "catch, report through error_cb, carry on" (seeded change C12-n): STM32 firmware with a negatively
+   answered flash-write followed by an nRF51 firmware, error_cb installed: the code ends WriteFailed after the STM32
+   frames with the nRF51 untouched; the variant invokes error_cb once, programs the nRF51 and returns normally
+   (without error_cb the variant behaves like the code). *)
+Theorem C12_swallowed_failure_refuted :
+  let p := flash_plan 2 eK eK eArts [] in
+  let '(o, _, tr, cs, _, ne) := flash_session_e false (mkUi true true) p eScript in
+  let '(o', _, tr', cs', _, ne') := flash_session_e true (mkUi true true) p eScript in
+  o = SFlash WriteFailed /\ length cs = 1%nat /\ ne = O /\ deliver eNrf tr = eNrf /\
+  o' = SDone /\ length cs' = 2%nat /\ ne' = 1%nat /\
+  zslice (t_flash (deliver eNrf tr')) (108 * 4) 5 = [9;9;9;9;9] /\
+  (let '(o'', _, tr'', _, _, _) := flash_session_e true (mkUi true false) p eScript in o'' = SFlash WriteFailed /\ tr'' = tr).
+Proof. exact swallow_refuted. Qed.
+Print Assumptions C12_swallowed_failure_refuted.
